@@ -26,15 +26,16 @@ CHECKS = [
     },
     {
         "property_id": "C02",
-        "text": "Structural clauses only: identity protocol (__eq__/__hash__ contracts) of the 12 classes used for term "
-        "identity; dispatch completeness of the 7 operator overloads over the closed universe of 6 classes by "
-        "type-level abstract interpretation (every operand shape the property quantifies over is supported; "
-        "12 unsupported shapes are recorded as known findings); resolver operator map; linear use of mutated "
-        "sub-results; duplicate-free containers. NOT decided: that the set of terms a branch constructs is the "
-        "documented expansion (needs an executable reference algebra = another technique family).",
-        "design_ref": "DESIGN.md section 3, C02 (R2.1-R2.5); section 4 F2-F5",
+        "text": "Identity protocol (__eq__/__hash__ contracts, __eq__ compares every identity field as a whole) of the 12 classes used for "
+        "term identity; dispatch completeness of the 7 operator overloads over the closed universe of 6 classes by type-level "
+        "abstract interpretation (every operand shape the property quantifies over is supported; the 12 shapes that were "
+        "unsupported on the pinned tree were repaired in /repo); expansion semantics: every overload is summarised by abstract "
+        "interpretation in a term-set domain and compared with the documented Wilkinson-Rogers/lme4 expansion for 60 operand "
+        "shapes (union, difference, a:b, a*b, a/b, **n, (e|g), ~); resolver operator map; linear use of mutated sub-results; "
+        "duplicate-free containers. Not decided: term identity of call atoms beyond the protocol (value semantics of arguments).",
+        "design_ref": "DESIGN.md section 3, C02 (R2.1-R2.5); section 7.2 (R2.6); section 4 F2-F5",
         "note": COMMON_NOTE,
-        "technique": "type-level abstract interpretation of operator overloads (dispatch table extraction); AST protocol lint; CFG dominance of membership guards",
+        "technique": "abstract interpretation of operator overloads (dispatch table over 6 classes; term-set summaries vs documented expansion); AST protocol lint; CFG dominance of membership guards",
     },
     {
         "property_id": "C11",
